@@ -52,6 +52,10 @@ type kase struct {
 	Ops       [][]interface{} `json:"ops"`
 	Iters     int             `json:"iters"` // stress mode: committed sections per sharer
 	Seed      int64           `json:"seed"`
+	// ctx mode: indices of "abort" ops that are performed as "Stop() is requested, then the open section's body
+	// returns ErrCriticalSectionAborted": Run must still roll the section back (release its shared variables)
+	// before it honours the exit request; the sharer takes no further part in the case
+	StopAbort []int `json:"stop_abort"`
 }
 
 type opRes struct {
@@ -443,6 +447,7 @@ type ctxSharer struct {
 	runErr  chan error
 	ready   bool // parked at the top of the body, waiting for its first command
 	active  bool
+	stopped bool // its Run has returned after a stop_abort step
 }
 
 func runCtx(w *world) (res []opRes, errs string) {
@@ -574,11 +579,49 @@ func runCtx(w *world) (res []opRes, errs string) {
 			}
 		}
 	}
-	for _, op := range k.Ops {
+	stopAbort := map[int]bool{}
+	for _, x := range k.StopAbort {
+		stopAbort[x] = true
+	}
+	for opIdx, op := range k.Ops {
 		name := op[0].(string)
 		i := int(op[1].(float64))
 		s := shs[i]
 		r := skip
+		if name == "abort" && stopAbort[opIdx] && s.active {
+			go s.ctx.Stop()
+			time.Sleep(40 * time.Millisecond) // let Stop register its request (it then waits for Run to exit)
+			select {
+			case s.cmdCh <- cmd{kind: "abort"}:
+				select {
+				case err := <-s.runErr:
+					r = opRes{St: "ok"}
+					if err != nil {
+						errs += fmt.Sprintf("run %d after stop: %v; ", i, err)
+					}
+					s.runErr <- err
+				case <-s.started:
+					// Run re-entered the body instead of exiting: park it, the exit is taken at the next round
+					r = opRes{St: "ok"}
+					s.started <- struct{}{}
+				case <-time.After(w.hangDur):
+					r = opRes{St: "hang"}
+				}
+			case <-time.After(w.hangDur):
+				r = opRes{St: "hang"}
+			}
+			s.active, s.ready, s.stopped = false, false, true
+			releaseAll(i)
+			res = append(res, r)
+			if r.St == "hang" {
+				w.hung = true
+				for len(res) < len(k.Ops) {
+					res = append(res, skip)
+				}
+				return res, "hang"
+			}
+			continue
+		}
 		switch name {
 		case "begin":
 			if s.ready && !s.active {
@@ -639,6 +682,22 @@ func runCtx(w *world) (res []opRes, errs string) {
 	}
 	// wind down: abort sections still open, then ErrDone
 	for i, s := range shs {
+		if s.stopped {
+			select {
+			case <-s.started: // Run re-entered the body once more after the stop request: let it leave
+				select {
+				case s.cmdCh <- cmd{kind: "abort"}:
+				case <-time.After(w.hangDur):
+				}
+			default:
+			}
+			select {
+			case <-s.runErr:
+			case <-time.After(w.hangDur):
+				errs += fmt.Sprintf("run %d did not exit after Stop; ", i)
+			}
+			continue
+		}
 		if s.active {
 			select {
 			case s.cmdCh <- cmd{kind: "abort"}:
